@@ -44,6 +44,13 @@ CHECKS = {
   text="A: all ordered pairs from a pool of several hundred criteria (every field, boundary values, unset bounds, NOT/OR trees, multi-field) checked for match(And(a,b),m) == match(a,m) && match(b,m) on every message, operand unchanged. B: 1..5-key SEARCH commands over a 56-key alphabet in all permutations; the recorded criteria must select exactly the conjunction of the keys; malformed sub-keys must not be dropped silently.",
   design_ref="DESIGN.md §3 C19",
   note="Trusts internal/ref/searchref (matcher + universe); dates all UTC; ModSeq outside the property."),
+
+ "C01": dict(
+  category="exploration",
+  technique="runtime oracle: real imapwire.Encoder of one side -> bytes -> real Decoder of the peer side with sentinel/CRLF/EOF accounting, plus legality of the emitted bytes judged by the independent tokenizer; race/checkptr build",
+  text="Every value kind (strings via 4 decode paths, mailboxes, flags, attributes, numbers, number sets of both flavours and '$', list nestings around the cap, streamed literals) over 15 byte-string classes x 8 lengths around 4096 under all 16 encoder modes, plus random compositions. Decides value equality modulo the documented canonicalisations, exact byte consumption, legal syntax for the mode, and refusal of unrepresentable values.",
+  design_ref="DESIGN.md §3 C01",
+  note="Sync literals use an already granted continuation request; 8-bit bytes in flags are not demanded to be refused."),
 }
 
 NOT_YET = "check not built yet in this round (planned in DESIGN.md §3; runtime monitoring applies)"
